@@ -44,6 +44,10 @@ CHECKS = {
          "For the 40 smallest seeds (quick) / all ~125 seeds (thorough: samples, the programs embedded in fc's tests, boundary seeds) every single mutation - del/dup/swap of every token, 18 insertions at every token boundary, 5 re-indentations of every line, truncation at every byte offset, final newline removed - and (thorough) every pair of mutations on the smallest seeds is given to the fc built from the working tree; 30 ill-typed / self-referential definitions (thorough: all ordered pairs of them); every fault pattern {ok, missing input, input is a directory, destination is a directory, destination is a symlink to /dev/full, syntax error} over argument lists of 1..3 files. Each run must end as `ok` (exit 0, every gen_X.go rewritten and complete) or `rejected` (non-zero, diagnostic, nothing for the offending file, earlier outputs complete); hang, Go runtime fatal error, incomplete or dirty output violate.",
          "Timeout 10 s with a 30 s re-run (normal runs take milliseconds); running as root, so permission faults are replaced by directory / /dev/full destinations.",
          "DESIGN.md C16"),
+ "C05": ("deviation-bounded exhaustive exploration of dictionary-enumeration schedules (controlled scheduler in pkg/dict under build tag verif; stateless explorer with strict replay across the process boundary), plus a free-running repeated-run cross-check",
+         "For each of ~24 (quick) / ~27 (thorough) programs chosen so that every dict.Keys/Values/KVs call site sees >= 2 entries (records sharing field names, non-exhaustive matches, several package_info blocks, inference chains and stars, multi-file invocations, rejected programs) every schedule with at most 1 (quick) / 2 (thorough) non-identity permutations - all n! for n <= 4, else identity/reverse/move-to-front/move-to-back - is executed on the fc built with -tags verif; output files (bytes) and exit status must equal those of the all-identity schedule. The unhooked binary is also run 20 times per program and must reproduce the same result; the sources are scanned for map iteration outside the hooked functions.",
+         "Menu completeness for n > 4 is argued, not enumerated; diagnostics text is not judged.",
+         "DESIGN.md C05"),
 }
 NOT_APPLICABLE = []
 
